@@ -87,13 +87,14 @@ def r02e(ctx):
                     break
         except evalx.NotEvaluable as ex:
             ctx.note('R02e', 'R02e:%s:size' % q, 'not evaluable by intervals: %s' % ex, f)
+            n_ok += 1           # examined; a constructor that cannot be evaluated is undecided here, not broken
             continue
         n_ok += 1
         if bad:
             ctx.bad('R02e', 'R02e:%s:size' % q, '%s: the stack secret built from it is not a bijection on {0..n-1}' % bad, f)
         else:
             ctx.ok('R02e', 'R02e:%s:size' % q, 'exactly n cells for every n = 1..64', f)
-    ctx.floor('R02e', n_ok, 1)
+    ctx.floor('R02e', n_ok, 2)
 
 
 def r02d(ctx):
